@@ -970,15 +970,15 @@ class Terminal:
             async with self.mbx_lock:
                 stop = min(len(data), self.mbx_out_sz - 16)
                 await self.mbx_send(
-                        MBXType.COE, "HBHB4x", CoECmd.SDOREQ.value << 12,
+                        MBXType.COE, "HBHBI", CoECmd.SDOREQ.value << 12,
                         ODCmd.DOWN_INIT_CA.value if subindex is None
                         else ODCmd.DOWN_INIT.value,
                         index, 1 if subindex is None else subindex,
-                        data=data[:stop])
-                type, data = await self.mbx_recv()
+                        len(data), data=data[:stop])
+                type, response = await self.mbx_recv()
                 if type is not MBXType.COE:
                     raise EtherCatError(f"expected CoE, got {type}")
-                coecmd, sdocmd, idx, subidx = unpack("<HBHB", data[:6])
+                coecmd, sdocmd, idx, subidx = unpack("<HBHB", response[:6])
                 if coecmd >> 12 != CoECmd.SDORES.value:
                     raise EtherCatError(f"expected CoE SDORES, got {coecmd>>12:x}")
                 if idx != index or subindex != subidx:
@@ -998,10 +998,10 @@ class Terminal:
                                 MBXType.COE, "HBHB4x", CoECmd.SDOREQ.value << 12,
                                 cmd + toggle, index,
                                 1 if subindex is None else subindex, data=d)
-                        type, data = await self.mbx_recv()
+                        type, response = await self.mbx_recv()
                         if type is not MBXType.COE:
                             raise EtherCatError(f"expected CoE, got {type}")
-                        coecmd, sdocmd, idx, subidx = unpack("<HBHB", data[:6])
+                        coecmd, sdocmd, idx, subidx = unpack("<HBHB", response[:6])
                         if coecmd >> 12 != CoECmd.SDORES.value:
                             raise EtherCatError(f"expected CoE SDORES")
                         if idx != index or subindex != subidx:
